@@ -507,6 +507,7 @@ func mapTypesToDynamoProjection(input *types.Projection) *dynamodbtypes.Projecti
 
 	return &dynamodbtypes.Projection{
 		NonKeyAttributes: mapTypesToDynamoStringSlice(input.NonKeyAttributes),
+		ProjectionType:   dynamodbtypes.ProjectionType(aws.ToString(input.ProjectionType)),
 	}
 }
 
